@@ -455,6 +455,22 @@ class TypedNode(Node):
         """
         return super().copy(add_self=add_self, predicate=predicate)
 
+    def _add_from(
+        self, other: TypedNode, *, predicate: PredicateCallbackType | None = None
+    ) -> None:
+        """Append copies of all source descendants to self (keeping the kind)."""
+        if predicate:
+            return self._add_filtered(other, predicate)
+
+        assert not self._children
+        for child in other.children:
+            new_child = self.add_child(
+                child.data, kind=child.kind, data_id=child._data_id
+            )
+            if child.children:
+                new_child._add_from(child, predicate=None)
+        return
+
     def filtered(self, predicate: PredicateCallbackType) -> TypedTree:
         """Return a filtered copy of this node and descendants as tree.
 
